@@ -240,7 +240,10 @@ Render ==
      \E dec \in {DecAny(ty, enc, Whole(enc))} :
      \E large \in {AsLarge(enc)} :
      \E spare \in {IF SpareOK(ty) THEN WithSpare(enc, 5) ELSE <<>>} :
-       out' = [ done |-> TRUE, v |-> v, enc |-> enc, dec |-> dec, large |-> large, spare |-> spare,
+     \* esds: every descriptor length padded to four bytes (0x80 0x80 0x80 n), as many muxers write it
+     \E padded \in {IF ty = "esds" THEN EncEsdsPadded(v) ELSE <<>>} :
+       out' = [ done |-> TRUE, v |-> v, enc |-> enc, dec |-> dec, large |-> large, spare |-> spare, padded |-> padded,
+                decPadded |-> IF ty = "esds" THEN DecAny(ty, padded, Whole(padded)) ELSE dec,
                 decLarge |-> DecAny(ty, large, Whole(large)),
                 decSpare |-> IF SpareOK(ty) THEN DecAny(ty, spare, Whole(spare)) ELSE dec ]
   /\ UNCHANGED <<ty, mode>>
@@ -250,7 +253,7 @@ Spec == Init /\ [][Next]_vars
 \* spec-level theorems over the enumerated space
 RoundTrip == out.done => out.dec = out.v
 SizeExact == out.done => Whole(out.enc).ok /\ Whole(out.enc).s = Len(out.enc) /\ Whole(out.enc).t = CodeOf(ty)
-VariantsAgree == out.done => out.decLarge = out.v /\ out.decSpare = out.v
+VariantsAgree == out.done => out.decLarge = out.v /\ out.decSpare = out.v /\ out.decPadded = out.v
 
-Emit == out.done => PrintT("CASE " \o ToJson([t |-> ty, mode |-> mode, v |-> out.v, enc |-> out.enc, large |-> out.large, spare |-> out.spare]))
+Emit == out.done => PrintT("CASE " \o ToJson([t |-> ty, mode |-> mode, v |-> out.v, enc |-> out.enc, large |-> out.large, spare |-> out.spare, padded |-> out.padded]))
 =============================================================================
